@@ -103,10 +103,10 @@ def _analyses():
             "kind decisions never made by dtype == <Python scalar type> (A4.dtypecmp), the shape/dtype template of a rebuilt cotangent taken from the differentiated argument (A4.template), zeros of the argument's / output's space on independent paths (A13.zero), one Box and one VSpace per differentiable type (A1.types), container layout (A2.layout).",
         ),
         "C06": (
-            [kt.trace_fn, kt.wrapper, kt.notrace_wrapper, kt.find_top, kt.new_trace, km.wrap_namespace, ka.arraybox_table, a1.methods, ka.operators, ka.wrapper_signatures, ka.option_packs, ka.container_boxes, ka.type_queries, km.axis_normalisation_consistency, kc.inplace_sites],
+            [kt.trace_fn, kt.wrapper, kt.notrace_wrapper, kt.find_top, kt.new_trace, km.wrap_namespace, ka.arraybox_table, a1.methods, ka.operators, ka.wrapper_signatures, ka.option_packs, ka.container_boxes, ka.type_queries, ka.traced_paths, km.axis_normalisation_consistency, kc.inplace_sites],
             "Value transparency: trace() returns the unboxed value; the wrapper calls the raw function unchanged on plain inputs and unboxes exactly one level; ArrayBox's "
             "operator/method/property table follows the Python data model (A14); operators return primal/aux untouched (A15); re-implemented wrappers keep NumPy's optional "
-            "parameter names, positions and defaults (A6.wrapsig) and apply a forwarded option pack exactly once, never per nested element (A6.optpack); container boxes answer structure queries (len, iteration order, membership) exactly as the raw container does (A14.containers); the isinstance / type replacements ask the builtin about the fully unboxed value (A14.typeq); no in-place write to a parameter (A9.inplace).",
+            "parameter names, positions and defaults (A6.wrapsig) and apply a forwarded option pack exactly once, never per nested element (A6.optpack); container boxes answer structure queries (len, iteration order, membership) exactly as the raw container does (A14.containers); the isinstance / type replacements ask the builtin about the fully unboxed value (A14.typeq); no re-implemented wrapper branches on whether an operand is traced (A6.tracedpath); no in-place write to a parameter (A9.inplace).",
         ),
         "C07": (
             [a8_taint.traceable, a1.helpers, kc.closure_reuse, a5_factor.agree, a5_linear.closures_linear, kt.trace_fn, kt.wrapper, kt.notrace_wrapper, kt.find_top, kt.new_trace],
@@ -114,9 +114,9 @@ def _analyses():
             "has its own VJP and VSpace arithmetic has both rules (A1.helpers), backward closures are re-usable (A10), no rule selects on the raw value of its (co)tangent unless the shortcut is disabled for traced (co)tangents (A5.lin/A5.cut).",
         ),
         "C08": (
-            [kt.trace_fn, kt.wrapper, kt.find_top, kt.new_trace, ka.operators, km.products, kc.node_slots],
+            [kt.trace_fn, kt.wrapper, kt.find_top, kt.new_trace, ka.operators, km.products, kc.node_slots, ka.arraybox_table],
             "No perturbation confusion: the three mechanisms of tracer.py on all paths - inner traces get strictly larger ids (A12.bal), only top-trace boxes are unboxed and the "
-            "list resets on strictly greater / appends on equal (A12.top), dependence by id equality, re-entry of the wrapper for lower levels, answer boxed with the arguments' trace (A13.unbox); the node constructors hand the answer and the arguments to the rule exactly as the wrapper passed them - still boxed for every enclosing trace (A2.slot: a rule evaluated on unboxed values detaches the inner derivative from all outer levels).",
+            "list resets on strictly greater / appends on equal (A12.top), dependence by id equality, re-entry of the wrapper for lower levels, answer boxed with the arguments' trace (A13.unbox); the node constructors hand the answer and the arguments to the rule exactly as the wrapper passed them - still boxed for every enclosing trace (A2.slot: a rule evaluated on unboxed values detaches the inner derivative from all outer levels); every ArrayBox operator hands BOTH operands to the NumPy function the data model names, whatever their values (A14: a shortcut chosen by the value of an operand that is traced at another level drops that level's dependence).",
         ),
         "C09": (
             [a4.vspace, a4.match, a4.match_jvp, a4.modulus, a5_factor.agree, ka.operators, a4_dtype.dtype_comparisons, a4_parity.conj_parity, a4_parity.holomorphic_factors],
